@@ -375,6 +375,7 @@ class ASTTypeBuilder:
             description=object_type.description,
             fields=fields,
             interfaces=interfaces,
+            default_resolver=object_type.default_resolver,
             nodes=object_type.nodes + extensions,  # type: ignore
         )
 
@@ -386,7 +387,9 @@ class ASTTypeBuilder:
             deprecation_reason=field_def.deprecation_reason,
             args=[self._extend_argument(a) for a in field_def.arguments],
             resolver=field_def.resolver,
+            subscription_resolver=field_def.subscription_resolver,
             node=field_def.node,
+            python_name=field_def.python_name,
         )
 
     def _extend_interface_type(
@@ -413,6 +416,7 @@ class ASTTypeBuilder:
             name,
             description=interface_type.description,
             fields=fields,
+            resolve_type=interface_type.resolve_type,
             nodes=interface_type.nodes + extensions,  # type: ignore
         )
 
@@ -468,6 +472,8 @@ class ASTTypeBuilder:
         return UnionType(
             name,
             types=member_types,
+            description=union_type.description,
+            resolve_type=union_type.resolve_type,
             nodes=union_type.nodes + extensions,  # type: ignore
         )
 
@@ -540,6 +546,7 @@ class ASTTypeBuilder:
             default_value=argument._default_value,
             description=argument.description,
             node=argument.node,
+            python_name=argument.python_name,
         )
 
 
